@@ -8,6 +8,7 @@ package decimal
 
 import (
 	"encoding/binary"
+	"errors"
 	"fmt"
 )
 
@@ -67,24 +68,59 @@ func (z *Decimal) GobDecode(buf []byte) error {
 		*z = Decimal{}
 		return nil
 	}
+	if len(buf) < 6 {
+		return errors.New("Decimal.GobDecode: buffer too small")
+	}
 
 	if buf[0] != decimalGobVersion {
 		return fmt.Errorf("Decimal.GobDecode: encoding version %d not supported", buf[0])
 	}
 
+	// decode and validate everything before touching z
+	b := buf[1]
+	mode := RoundingMode((b >> 5) & 7)
+	acc := Accuracy((b>>3)&3) - 1
+	f := form((b >> 1) & 3)
+	neg := b&1 != 0
+	prec := binary.BigEndian.Uint32(buf[2:])
+	if mode > ToPositiveInf || acc > Above || f > inf {
+		return errors.New("Decimal.GobDecode: invalid mode, accuracy or form")
+	}
+
+	var exp int32
+	var mant dec
+	if f == finite {
+		if len(buf) < 10 {
+			return errors.New("Decimal.GobDecode: buffer too small for finite form")
+		}
+		exp = int32(binary.BigEndian.Uint32(buf[6:]))
+		mant = mant.setBytes(buf[10:])
+		// the mantissa must be a normalized decimal mantissa that fits the precision
+		n := (uint64(prec) + (_DW - 1)) / _DW
+		if prec == 0 || len(mant) == 0 || uint64(len(mant)) > n || mant[len(mant)-1] < _DB/10 {
+			return errors.New("Decimal.GobDecode: malformed mantissa")
+		}
+		for _, w := range mant {
+			if w >= _DB {
+				return errors.New("Decimal.GobDecode: malformed mantissa")
+			}
+		}
+		if uint64(len(mant)) == n && mant[0]%pow10(uint(n*_DW-uint64(prec))) != 0 {
+			return errors.New("Decimal.GobDecode: mantissa exceeds precision")
+		}
+	}
+
 	oldPrec := z.prec
 	oldMode := z.mode
 
-	b := buf[1]
-	z.mode = RoundingMode((b >> 5) & 7)
-	z.acc = Accuracy((b>>3)&3) - 1
-	z.form = form((b >> 1) & 3)
-	z.neg = b&1 != 0
-	z.prec = binary.BigEndian.Uint32(buf[2:])
-
-	if z.form == finite {
-		z.exp = int32(binary.BigEndian.Uint32(buf[6:]))
-		z.mant = z.mant.setBytes(buf[10:])
+	z.mode = mode
+	z.acc = acc
+	z.form = f
+	z.neg = neg
+	z.prec = prec
+	if f == finite {
+		z.exp = exp
+		z.mant = z.mant.set(mant)
 	}
 
 	if oldPrec != 0 {
